@@ -67,6 +67,7 @@ pub enum V {
     OfKmer(usize, Box<S>),
     CloneOf(Box<V>),
     FromBits(usize, Box<V>),
+    VecWords(Vec<usize>),
 }
 
 /// borrowed slices
@@ -243,6 +244,14 @@ fn parse_v_kw(k: &str, t: &mut Toks) -> PResult<V> {
                 ws.push(t.num()?);
             }
             V::FromWords(n, ws)
+        }
+        "vecwords" => {
+            let cnt = t.num()?;
+            let mut ws = vec![];
+            for _ in 0..cnt {
+                ws.push(t.num()?);
+            }
+            V::VecWords(ws)
         }
         "ofkmer" => {
             let kk = t.num()?;
